@@ -3,7 +3,9 @@ use crate::decoder::{Plane, Srt, plane::from_downlink::UpdateFromDownlink};
 impl UpdateFromDownlink<Srt> for Plane {
     fn update_from_downlink(&mut self, dl: &Srt) {
         if dl.icao.is_some() {
-            if dl.df == Some(4) && dl.altitude.is_some() {
+            // like DF17/DF20 and the -U path: a reply whose altitude code gives no altitude blanks the column
+            // instead of leaving a stale value on display
+            if dl.df == Some(4) {
                 self.altitude = dl.altitude;
                 self.altitude_source = ' ';
             }
